@@ -99,13 +99,17 @@ def initVertices (feas : Pos → Bool) : Nat → List Pos → InitM (List Pos)
     | .error e => .error e
     | .ok (v, d1) => initVertices feas n (acc ++ [v]) d1
 
-/-- `_init_warm_start(value_list)` (after fix e0720d0: parameters are read by name) -/
-def initWarm (feas : Pos → Bool) (sp : Space) (ws : List Para) : Except Err (List Pos) := do
-  let ps ← ws.mapM (fun w => do
-    let v ← para2value sp.names w
-    let k ← value2position sp.dims v
-    pure (k.map Int.ofNat))
-  pure (ps.filter feas)
+/-- the position `_init_warm_start` computes for one warm-start dictionary (after fix e0720d0: read by name) -/
+def warmPos (sp : Space) (w : Para) : Except Err Pos := do
+  let v ← para2value sp.names w
+  let k ← value2position sp.dims v
+  pure (k.map Int.ofNat)
+
+/-- `_init_warm_start(value_list)` -/
+def initWarm (feas : Pos → Bool) (sp : Space) (ws : List Para) : Except Err (List Pos) :=
+  match ws.mapM (warmPos sp) with
+  | .error e => .error e
+  | .ok ps => .ok (ps.filter feas)
 
 def partRandom (feas : Pos → Bool) (fuel : Nat) : Option Nat → InitM (List Pos)
   | some n => initRandom feas fuel n
